@@ -46,11 +46,11 @@ m = {
         "name": "vchk",
         "path": "/verif/harness",
         "serves_properties": sorted(CHECKS),
-        "kind_free_text": "Go harness: independent simulated BMC (refbmc), reference codecs (refcodec), in-memory and loopback-UDP transports, online monitors over the wire/event log, Go race detector for C19",
+        "kind_free_text": "Go harness: independent simulated BMC (refbmc), reference codecs (refcodec), in-memory and loopback-UDP transports, online monitors over the wire/event log, Go race detector for C19, Go's coverage-guided fuzzer over C05's decode oracles in the thorough tier",
     }],
     "checks": checks,
     "not_applicable": na,
-    "notes": "Runtime monitoring only: every verdict is an oracle observing executions of the real library built from /repo's working tree. Known findings: /verif/known_findings.json. Seeded changes used to validate the monitors: /verif/seeded/.",
+    "notes": "Runtime monitoring only: every verdict is an oracle observing executions of the real library built from /repo's working tree. Known findings: /verif/known_findings.json. Seeded changes used to validate the monitors: /verif/seeded/ (400, ten rounds); behaviour-preserving controls on which every check stays silent: /verif/benign/ (42).",
 }
 json.dump(m, open(os.path.join(os.path.dirname(__file__), "MANIFEST.json"), "w"), indent=1)
 print("MANIFEST.json:", len(checks), "checks,", len(na), "not applicable")
